@@ -222,22 +222,22 @@ func InitApp() *App {
 		"mem/store/store.go": "package store\n\ntype Mem struct{ _ int }\n\nfunc (*Mem) Name() string { return \"mem\" }\nfunc NewMem() *Mem { return &Mem{} }\n",
 		"db/store/store.go":  "package store\n\ntype SQL struct{ _ int }\n\nfunc (*SQL) Name() string { return \"sql\" }\nfunc NewSQL() *SQL { return &SQL{} }\n",
 		"types.go":           "package cfg\n\ntype Cache interface{ Name() string }\ntype Store interface{ Name() string }\ntype Q struct{ _ int }\ntype App struct{ _ int }\n\nfunc NewQ(c Cache) *Q { return &Q{} }\nfunc NewApp(q *Q, s Store) *App { return &App{} }\n",
-		"wire.go": "//go:build wireinject\n\npackage cfg\n\nimport (\n\t\"github.com/google/wire\"\n\tdbstore \"{{PKG}}/db/store\"\n\t\"{{PKG}}/mem/store\"\n)\n\nvar CacheSet = wire.NewSet(store.NewMem, wire.Bind(new(Cache), new(*store.Mem)))\nvar StoreSet = wire.NewSet(dbstore.NewSQL, wire.Bind(new(Store), new(*dbstore.SQL)))\n\nfunc InitApp() *App {\n\twire.Build(CacheSet, StoreSet, NewQ, NewApp)\n\treturn nil\n}\n",
+		"wire.go":            "//go:build wireinject\n\npackage cfg\n\nimport (\n\t\"github.com/google/wire\"\n\tdbstore \"{{PKG}}/db/store\"\n\t\"{{PKG}}/mem/store\"\n)\n\nvar CacheSet = wire.NewSet(store.NewMem, wire.Bind(new(Cache), new(*store.Mem)))\nvar StoreSet = wire.NewSet(dbstore.NewSQL, wire.Bind(new(Store), new(*dbstore.SQL)))\n\nfunc InitApp() *App {\n\twire.Build(CacheSet, StoreSet, NewQ, NewApp)\n\treturn nil\n}\n",
 	}}
 	out = append(out, ext)
 	ext2 := &Config{Family: "W2", Desc: "same-named external packages in two wire files", Pkg: "cfg", Injectors: []string{"InitApp"}, Files: map[string]string{
 		"mem/store/store.go": ext.Files["mem/store/store.go"],
 		"db/store/store.go":  ext.Files["db/store/store.go"],
 		"types.go":           ext.Files["types.go"],
-		"wire_a.go": "//go:build wireinject\n\npackage cfg\n\nimport (\n\t\"github.com/google/wire\"\n\t\"{{PKG}}/mem/store\"\n)\n\nvar CacheSet = wire.NewSet(store.NewMem, wire.Bind(new(Cache), new(*store.Mem)))\n",
-		"wire_b.go": "//go:build wireinject\n\npackage cfg\n\nimport (\n\t\"github.com/google/wire\"\n\t\"{{PKG}}/db/store\"\n)\n\nvar StoreSet = wire.NewSet(store.NewSQL, wire.Bind(new(Store), new(*store.SQL)))\n\nfunc InitApp() *App {\n\twire.Build(CacheSet, StoreSet, NewQ, NewApp)\n\treturn nil\n}\n",
+		"wire_a.go":          "//go:build wireinject\n\npackage cfg\n\nimport (\n\t\"github.com/google/wire\"\n\t\"{{PKG}}/mem/store\"\n)\n\nvar CacheSet = wire.NewSet(store.NewMem, wire.Bind(new(Cache), new(*store.Mem)))\n",
+		"wire_b.go":          "//go:build wireinject\n\npackage cfg\n\nimport (\n\t\"github.com/google/wire\"\n\t\"{{PKG}}/db/store\"\n)\n\nvar StoreSet = wire.NewSet(store.NewSQL, wire.Bind(new(Store), new(*store.SQL)))\n\nfunc InitApp() *App {\n\twire.Build(CacheSet, StoreSet, NewQ, NewApp)\n\treturn nil\n}\n",
 	}}
 	out = append(out, ext2)
 	ext3 := &Config{Family: "W2", Desc: "Bind in a set without its constructor, external package under an alias", Pkg: "cfg", Injectors: []string{"InitApp"}, Files: map[string]string{
 		"mem/store/store.go": ext.Files["mem/store/store.go"],
 		"db/store/store.go":  ext.Files["db/store/store.go"],
 		"types.go":           ext.Files["types.go"],
-		"wire.go": "//go:build wireinject\n\npackage cfg\n\nimport (\n\t\"github.com/google/wire\"\n\tdbstore \"{{PKG}}/db/store\"\n\t\"{{PKG}}/mem/store\"\n)\n\nvar CacheBind = wire.NewSet(wire.Bind(new(Cache), new(*store.Mem)))\nvar StoreBind = wire.NewSet(wire.Bind(new(Store), new(*dbstore.SQL)))\n\nfunc InitApp() *App {\n\twire.Build(CacheBind, StoreBind, store.NewMem, dbstore.NewSQL, NewQ, NewApp)\n\treturn nil\n}\n",
+		"wire.go":            "//go:build wireinject\n\npackage cfg\n\nimport (\n\t\"github.com/google/wire\"\n\tdbstore \"{{PKG}}/db/store\"\n\t\"{{PKG}}/mem/store\"\n)\n\nvar CacheBind = wire.NewSet(wire.Bind(new(Cache), new(*store.Mem)))\nvar StoreBind = wire.NewSet(wire.Bind(new(Store), new(*dbstore.SQL)))\n\nfunc InitApp() *App {\n\twire.Build(CacheBind, StoreBind, store.NewMem, dbstore.NewSQL, NewQ, NewApp)\n\treturn nil\n}\n",
 	}}
 	out = append(out, ext3)
 	// multi-file
